@@ -9,6 +9,7 @@ class Ref(Expression):
     is_commented = False
     is_reference = True
     num_blocks = 0
+    uses_yield = True
 
     def __init__(self, name):
         self.name = name
